@@ -20,7 +20,7 @@ CLAIMED = {
          "Discharges, over all writers of the Manager's state found by census, the side conditions of the inductive argument for the keyset invariant: atomicity of failing operations (no state write can be followed by a definitely-failing return), ID freshness/recording at every append site and in newRandomKeyID/NewManagerFromHandle/WithFixedID/Add, primary=>Enabled and non-primary-before-disable/delete guards on the same entry object, complete clearing loops after a primary is set, isolation of Handle()/NewManagerFromHandle() results (no shared entries slice or entry objects). It is a structural proof-obligation list, not an exploration of operation histories.",
          "Trusted: go/ssa; the hand argument from the listed side conditions to the invariant; idioms recognised (if-guards, range loops, comma-ok map lookups).",
          "DESIGN.md §4 C11"),
- "C13": ("constant folding of the secret-classification predicate over every KeyMaterialType constant; census + dominance of every ingress/egress site of cleartext keysets; single-call/argument-identity rules for the keyset encryption helpers; backward slices of keyset-info fields; every key parser folded per KeyMaterialType label (exactly one label may succeed), fallback-key dominance in the generic ParseKey",
+ "C13": ("constant folding of the secret-classification predicate over every KeyMaterialType constant; census + dominance of every ingress/egress site of cleartext keysets; single-call/argument-identity rules for the keyset encryption helpers; backward slices of keyset-info fields; every key parser folded per KeyMaterialType label (exactly one label may succeed), fallback-key dominance in the generic ParseKey; type-test dominance for key.Key components of public key objects; census of KeyMaterialType stores",
          "Decides the structural clauses of C13 completely: the per-key predicate of hasSecrets folds to true for UNKNOWN/SYMMETRIC/ASYMMETRIC_PRIVATE and false for PUBLIC/REMOTE independent of any other key field, and is applied to every key; every reference to the unguarded handle constructor and every cleartext Writer.Write is guarded by hasSecrets(same value)==false, fed by a checked decrypt*, or lives in the two insecure packages; decrypt*/encrypt* call the caller's AEAD exactly once with the caller's associated data and release a keyset only on its success; keyset-info fields derive from metadata only.",
          "Trusted: go/ssa; confidentiality of the caller's AEAD; a key whose KeyMaterialType label contradicts its type URL is left to the per-type parsers (not decided here).",
          "DESIGN.md §4 C13"),
@@ -32,11 +32,11 @@ CLAIMED = {
          "Decides structural necessary conditions of C02 for every tink.AEAD implementer: plaintext is released only under a passed authentication check (stdlib Open, constant-time comparison of a recomputed tag, or success of a function for which that holds); the verdict is never discarded; the whole output prefix is compared; no trailing input bytes are ignored; every loop-invariant slice/index on ciphertext-derived data (also in callees) is proved in bounds, so truncated/garbage inputs cannot panic there. It does not decide that the MAC/GHASH values are right.",
          "Trusted: go/ssa; stdlib Open contract; size fields non-negative (validated at construction). Block-loop indexing is outside the prover and listed.",
          "DESIGN.md §4 C02, §2 engines C/D"),
- "C03": ("as C02 for tink.Verifier, plus points-to identity of the signature bytes handed to the stdlib, equality-length guards (directly or entailed from branch facts plus constructor-established field invariants), constant-folded curve-size table, legacy-suffix condition agreement, DER re-encode guard, PSS salt-length guard and salt provenance",
+ "C03": ("as C02 for tink.Verifier, plus points-to identity of the signature bytes handed to the stdlib, equality-length guards (directly or entailed from branch facts plus constructor-established field invariants), constant-folded curve-size table, legacy-suffix condition agreement, DER re-encode guard, PSS salt-length guard and salt provenance; bits-to-bytes rounding census",
          "Decides structural necessary conditions of C03 for every tink.Verifier implementer and the legacy-suffix sites of signers: nil only under the stdlib's positive verdict; raw signature bytes (no re-padding) for RSA/Ed25519; Ed25519 and IEEE-P1363 lengths pinned by equality (P1363 to the key's own curve; table 64/96/132 folded); 0x00 suffix exactly under variant==Legacy on both sides; strict DER by re-encoding; PSS salt length cannot be the stdlib's 'auto' value (known finding: salt length 0).",
          "Trusted: go/ssa; stdlib verification calls implement their standards; curve names of crypto/elliptic.",
          "DESIGN.md §4 C03"),
- "C04": ("as C02 for tink.MAC, plus sibling-computation identity (VerifyMAC compares with the same resolved computation ComputeMAC uses), full-length comparison shape, constant-folded parameter validators at their boundaries",
+ "C04": ("as C02 for tink.MAC, plus sibling-computation identity (VerifyMAC compares with the same resolved computation ComputeMAC uses), full-length comparison shape, constant-folded parameter validators at their boundaries; provenance of the key handed to crypto/hmac.New",
          "Decides structural necessary conditions of C04: acceptance only under a constant-time full-length comparison between the caller's whole tag and a value from the sibling ComputeMAC path on the same key; exact prefix; no ignored trailing tag bytes; LEGACY suffix condition agreement; validators accept exactly key>=16 / 10<=tag<=digest (HMAC, five hashes) and key==32 / 10<=tag<=16 (CMAC) — evaluated by constant propagation, and constructors pass through them. the caller's tag takes part in the comparison up to its last byte (a slice with an upper bound only where that bound is the tag's length). RFC 2104/4493 value equality is not decided.",
          "Trusted: go/ssa; hmac.Equal / ConstantTimeCompare semantics.",
          "DESIGN.md §4 C04"),
@@ -44,7 +44,7 @@ CLAIMED = {
          "Decides the static clause of C20: every byte of every IV/nonce/salt passed to Seal/NewCTR/nonce-named parameters in producing functions lies in a region completely filled by a dominating CSPRNG fill and is not written in between; the wrappers pass whole buffers to crypto/rand and do not mask; every stdlib generator/signing reader is crypto/rand.Reader; streaming writers draw salt and nonce prefix per call; every encapsulate draws fresh randomness on every success path and keeps nothing in the shared KEM object; hedged PQ signing fills its whole randomness array; every key creator draws its material from the CSPRNG with the parameters' size. The distribution itself is crypto/rand's (assumed).",
          "Trusted: crypto/rand; go/ssa; the two named deterministic nonce derivations (HPKE computeNonce, streaming generateSegmentNonce) are exceptions whose random inputs are checked.",
          "DESIGN.md §4 C20, §2 engine F"),
- "C14": ("census of Handle allocation / constructor call sites; must-validate dominance; constant folding of validateKey over the enum product and of every strength validator at its boundaries; constant-folded Ed25519 key constructors over material lengths; Validate's loop folded as a finite automaton over abstract keys (primary ID? x status x duplicate ID?) from every reachable loop state, guard-shape rules as fallback",
+ "C14": ("census of Handle allocation / constructor call sites; must-validate dominance; constant folding of validateKey over the enum product and of every strength validator at its boundaries; constant-folded Ed25519 key constructors over material lengths; Validate's loop folded as a finite automaton over abstract keys (primary ID? x status x duplicate ID?) from every reachable loop state, guard-shape rules as fallback; in-bounds proofs of every string slice",
          "Decides structural clauses of C14: handles are allocated only in newFromEntries, proto keysets become entries only after Validate()==nil; validateKey accepts exactly {TINK,LEGACY,RAW,CRUNCHY}x{ENABLED,DISABLED,DESTROYED} (every enum constant and an out-of-range probe folded), nil key data rejected; Validate rejects nil/empty keysets, repeated IDs (map fed on every iteration), non-ENABLED or second primaries and succeeds only with an ENABLED primary found; the strength validators reject exactly below the library minimums (AES {16,32}, RSA >=2048 & e=65537, ECDSA curve/hash table incl. every weaker combination, HKDF-PRF, HMAC-PRF, CMAC-PRF) and constructors pass through them. Run-time panic freedom of all parsers and behavioural self-consistency are not decided.",
          "Trusted: go/ssa; constant propagation over pure validator functions; the abstraction of Validate's loop state (flags, counters saturated at 2) and of the ID set by 'already seen'.",
          "DESIGN.md §4 C14"),
@@ -56,7 +56,7 @@ CLAIMED = {
          "Decides the structural clauses of C07 (NOT chunking independence, which quantifies over call histories): the stream writer emits its whole buffer (segments are the internal buffer from offset 0, or caller memory only where the buffer is known empty); no Read on an underlying reader has its count discarded; the replaying wrapper of the keyset-level reader records everything it reads on every return path; segment decrypters succeed only under a passed tag check for every segment length; Reader.Read releases only authenticated plaintext; no underlying I/O error is dropped (16 call sites); segment nonces are prefix||be32(counter)||last with the 2^32-1 limit, own counters incremented on every emitting path, last=false/true/at-EOF; Write after Close fails and Close is idempotent; the keyset-level reader rewinds before each next candidate and fails when none matches.",
          "Trusted: go/ssa; stdlib Open/hmac.Equal; io.ReadFull EOF conventions.",
          "DESIGN.md §4 C07"),
- "C12": ("constant folding of every enum table pair (serialize∘parse inverse on all enum constants); shape rules for the keyset<->entries loops; argument-flow rules for ID requirements, type URL constants, optional sub-message presence; constant-field census; accessor-name/field-name agreement of serializers; ID-requirement flow through the 29 key creators; ParseKey provenance of entry keys",
+ "C12": ("constant folding of every enum table pair (serialize∘parse inverse on all enum constants); shape rules for the keyset<->entries loops; argument-flow rules for ID requirements, type URL constants, optional sub-message presence; constant-field census; accessor-name/field-name agreement of serializers; ID-requirement flow through the 29 key creators; ParseKey provenance of entry keys; census that every scalar getter of Parameters is read by the parameters serializer; nil-test of the keyset material before cleartext writes; RSA CRT padding table",
          "Decides the structural conditions C12 rests on: for every pair of enum table functions A->(B,error)/B->(A,error) (found by type in 30+ packages) parse(serialize(a))=a on every constant and unknown values are errors; keyset<->entries conversions and Public() map every entry in a complete same-index loop with the same ID/status/primary (RAW => ID requirement 0); parsers hand keySerialization.IDRequirement() on and serializers hand key.IDRequirement() to NewKeySerialization (or insist on RAW); type URLs are the package constants on both sides; optional custom kid presence by nil test; no serializer writes a constant into a field the parser reads back, none copies a proto field from a differently named field of another message, no key ID is compared with 0, and a constructor whose parser canonicalises a big integer stores the canonical form. Byte-identical re-serialization and Equal semantics are not decided.",
          "Trusted: go/ssa; constant propagation over pure table functions; protobuf library.",
          "DESIGN.md §4 C12"),
@@ -80,7 +80,7 @@ CLAIMED = {
          "Decides the constants, derived parameters and guards of SLH-DSA (NOT the WOTS+/FORS/XMSS computation): the six literals vs FIPS 205 Table 2 with h=d*h' and the m equation, the twelve instances' literal/hash pairing, w/len1/len2/len folded from newParams, verifyInternal accepting exactly 7856/17088/16224/35664/29792/49856-byte signatures before slicing, address types 0..6, context length <= 255 on Sign/SignDeterministic/Verify.",
          "Trusted: go/ssa; FIPS 205 values transcribed in checker/rules/c16.go; math/bits.Len semantics.",
          "DESIGN.md §4 C16"),
- "C17": ("value-identity/dominance rules for DeriveKeyset's loop (element, salt, fixed ID, primary condition); census of randomness references in the derivation packages; closure-capture writes via engine B (C18)",
+ "C17": ("value-identity/dominance rules for DeriveKeyset's loop (element, salt, fixed ID, primary condition); census of randomness references in the derivation packages; closure-capture writes via engine B (C18); parameters parser folded over all pairs of prefix types",
          "Decides structural clauses of C17 (NOT RFC 5869 value equality): DeriveKeyset derives every element's key from the caller's salt in a complete loop, adds it under that element's key ID and promotes exactly the element whose ID equals the deriver keyset's primary ID; the legacy wrapper keeps prefix type and uses ID requirement 0 exactly for RAW; no derivation function references crypto/rand or the random wrappers and every AddKeyWithOpts carries WithFixedID; registered deriver closures share no mutable state (C18).",
          "Trusted: go/ssa; factory-side pairing decided under C05.",
          "DESIGN.md §4 C17"),
